@@ -5,6 +5,7 @@ package main
 // re-parsed with the library's own parser must give back the original facts, rules, checks.
 
 import (
+	"fmt"
 	"strings"
 
 	"github.com/biscuit-auth/biscuit-go/v2"
@@ -37,17 +38,51 @@ func execPrint(cs *Sx) (res string) {
 		return "bad-case"
 	}
 	pos := 1
-	if p, ok := cs.field("position"); ok && len(p) == 1 && p[0].Atom == "2" {
-		pos = 2
+	if p, ok := cs.field("position"); ok && len(p) == 1 {
+		fmt.Sscanf(p[0].Atom, "%d", &pos)
+		if pos < 1 || pos > 8 {
+			return "bad-case"
+		}
 	}
 	blocks := []Block{{Facts: []Pred{{Name: "auth", Terms: []Term{S("seed symbol")}}}}}
-	if pos == 2 {
-		blocks = append(blocks, Block{Facts: []Pred{{Name: "mid", Terms: []Term{S("another symbol"), V("v")}}}})
+	for k := 1; k < pos; k++ {
+		blocks = append(blocks, Block{Facts: []Pred{{Name: "mid", Terms: []Term{S(fmt.Sprintf("another symbol %d", k)), V("v")}}}})
 	}
-	blocks = append(blocks, blk)
-	tok, err := buildTokenSpec(TokenSpec{Blocks: blocks}, NewRng(9))
-	if err != nil {
-		return "build-error"
+	var tok *biscuit.Biscuit
+	var err error
+	if _, fork := cs.field("fork"); fork {
+		// the block is appended by one holder, another block by a second holder of the same
+		// parent; the first holder's token is printed after the second one exists
+		parent, e := buildTokenSpec(TokenSpec{Blocks: blocks}, NewRng(9))
+		if e != nil {
+			return "build-error"
+		}
+		if _, lookup := cs.field("lookup"); lookup {
+			parent.GetBlockID(biscuit.Fact{Predicate: Pred{Name: "auth", Terms: []Term{S("a string the parent has never seen")}}.ToBiscuit()})
+		}
+		bbA := parent.CreateBlock()
+		if e := fillBlockBuilder(bbA, blk); e != nil {
+			return "build-error"
+		}
+		tok, err = parent.Append(&detRand{NewRng(10)}, bbA.Build())
+		if err != nil {
+			return "build-error"
+		}
+		bbB := parent.CreateBlock()
+		bbB.AddFact(biscuit.Fact{Predicate: Pred{Name: "sibling", Terms: []Term{S("the other holder's block")}}.ToBiscuit()})
+		if _, e := parent.Append(&detRand{NewRng(11)}, bbB.Build()); e != nil {
+			return "build-error"
+		}
+	} else {
+		tok, err = buildTokenSpec(TokenSpec{Blocks: append(blocks, blk)}, NewRng(9))
+		if err != nil {
+			return "build-error"
+		}
+	}
+	if _, lookup := cs.field("lookup"); lookup {
+		// looking a fact up is a read: what the token prints afterwards is what it printed before
+		tok.GetBlockID(biscuit.Fact{Predicate: Pred{Name: "auth", Terms: []Term{S("a string this token has never seen")}}.ToBiscuit()})
+		tok.GetBlockID(biscuit.Fact{Predicate: Pred{Name: "never-seen-name", Terms: []Term{I(1)}}.ToBiscuit()})
 	}
 	code := tok.Code()
 	if len(code) != pos {
@@ -65,7 +100,10 @@ func execPrint(cs *Sx) (res string) {
 	if c2 := tok2.Code(); len(c2) != pos || c2[pos-1] != code[pos-1] {
 		return "differs-after-serialization"
 	}
-	_ = tok.String()
+	// the whole printed token (blocks, symbols, contexts) as well
+	if tok.String() != tok2.String() {
+		return "string-differs-after-serialization"
+	}
 	return "text " + hxs(code[pos-1])
 }
 
@@ -114,11 +152,17 @@ func runC15(c *Ctx) {
 		}
 		_ = pb
 		blk := Block{Facts: dedupFacts(exp.Facts), Rules: exp.Rules, Checks: exp.Checks}
-		pos := "1"
-		if r.Chance(1, 3) {
-			pos = "2"
+		pos := Pick(r, []string{"1", "1", "2", "4", "6"})
+		extra := ""
+		if r.Chance(1, 4) {
+			extra += " (fork)"
+			c.Count("printed-after-a-fork")
 		}
-		sx := "(case " + blk.Sx() + " (position " + pos + "))"
+		if r.Chance(1, 4) {
+			extra += " (lookup)"
+			c.Count("printed-after-a-lookup")
+		}
+		sx := "(case " + blk.Sx() + " (position " + pos + ")" + extra + ")"
 		res := execCase("PRINT", sx)
 		c.Case("PRINT", c.NewID("print"), sx, res)
 		c.Count("print:" + strings.SplitN(res, " ", 2)[0])
